@@ -13,3 +13,11 @@ func verifPoint(point string) {
 		h(point)
 	}
 }
+
+// VerifHoldServer takes the packet server's mutex and returns the function
+// that releases it, so that the harness can queue Serve and Shutdown calls on
+// the mutex in a chosen order.
+func VerifHoldServer(s *PacketServer) (release func()) {
+	s.mu.Lock()
+	return s.mu.Unlock
+}
